@@ -23,6 +23,7 @@ type Obs struct {
 	Cancelled bool
 	CancelT   int64
 	CancelSeq int
+	cancelFn  func()
 }
 
 type Oracle func(s *Scenario, x *vrt.Exec, o *Obs) []vrt.Violation
@@ -39,6 +40,16 @@ func runBody(s *Scenario, obs *Obs, cancelAfterMS int64) func() {
 		env.W = w
 		obs.W = w
 		ctx, cancel := vrt.WithCancel("harness/ctx", context.Background())
+		obs.cancelFn = func() {
+			if obs.Cancelled || obs.Returned {
+				return
+			}
+			obs.Cancelled = true
+			obs.CancelT = vrt.NowMS()
+			obs.CancelSeq = len(w.Ledger)
+			env.Log("cancel", "", "", 0, nil, nil)
+			cancel()
+		}
 		if cancelAfterMS >= 0 {
 			vrt.GoDaemon("harness/canceller", func() {
 				if cancelAfterMS > 0 {
